@@ -166,6 +166,7 @@ type Run struct {
 	tainted      bool
 	NoKnown      bool // replay/minimise mode: known findings are reported like any violation
 	PendingDogfoodUndelegations []string
+	LastNST *NSTUpdate
 }
 
 func (r *Run) Logf(f string, a ...interface{}) {
@@ -527,6 +528,24 @@ func (r *Run) ExecBlock(bi int, b Block) {
 			return
 		}
 	}
+	// interleaving measure: ordered pairs of consecutive operation outcomes inside a block, the
+	// first one paired with the block's context (epoch end, evidence, absent votes, after restart)
+	prevOutcome := "begin"
+	for i := len(r.EpochCalls) - 1; i >= 0 && r.EpochCalls[i].Height == h; i-- {
+		if r.EpochCalls[i].Kind == "end" && r.EpochCalls[i].Subscriber == 0 {
+			prevOutcome = "begin+epochend"
+			break
+		}
+	}
+	if len(evs) > 0 {
+		prevOutcome += "+evidence"
+	}
+	if len(absent) > 0 {
+		prevOutcome += "+absent"
+	}
+	if bi > 0 && r.Plan.Blocks[bi-1].Restart {
+		prevOutcome += "+restarted"
+	}
 	// transactions
 	blockGasWanted := int64(0)
 	for oi, op := range b.Ops {
@@ -597,12 +616,14 @@ func (r *Run) ExecBlock(bi int, b Block) {
 		}
 		r.Results = append(r.Results, tr)
 		r.Stats.Txs++
+		outcome := op.K + ":fail"
 		if tr.OK {
 			r.Stats.TxOK++
-			r.Stats.OpOutcomes[op.K+":ok"]++
-		} else {
-			r.Stats.OpOutcomes[op.K+":fail"]++
+			outcome = op.K + ":ok"
 		}
+		r.Stats.OpOutcomes[outcome]++
+		r.State("seq:" + prevOutcome + ">" + outcome)
+		prevOutcome = outcome
 		ctx = n.DeliverCtx(c)
 		r.phase = "AfterTx"
 		for _, m := range r.Mons {
@@ -726,8 +747,9 @@ func (r *Run) decodeResult(bt *BuiltTx, resp abci.ResponseDeliverTx) *TxResult {
 		return tr
 	}
 	tr.OK = true
-	// precompile calls: first 32 bytes are the success flag
-	if bt.To != nil && isPrecompile(*bt.To) && bt.Method != "" {
+	// precompile calls: first 32 bytes are the success flag (the forwarder returns the inner
+	// call's return data; a failed inner call returns nothing)
+	if bt.To != nil && (isPrecompile(*bt.To) || bt.ViaForwarder) && bt.Method != "" {
 		if len(er.Ret) >= 32 {
 			f := er.Ret[31] == 1
 			tr.Flag = &f
